@@ -229,6 +229,132 @@ pub proof fn lemma_items_nonempty(cm: Map<Seq<char>, Vec<Rank>>, ua: Map<Seq<cha
         assert(direct_rv(k, ua, d)[j].1.len() > 0);
     }
 }
+
+pub struct Config { pub smart_quote: bool, pub ansi: bool, pub include_english: bool }
+impl Config {
+    pub fn get_smart_quote(&self) -> (r: bool) ensures r == self.smart_quote { self.smart_quote }
+    pub fn get_ansi_encoding(&self) -> (r: bool) ensures r == self.ansi { self.ansi }
+    pub fn get_suggestion_include_english(&self) -> (r: bool) ensures r == (self.include_english && !self.ansi) {
+        // Mutually exclusive
+        self.include_english && !self.ansi
+    }
+}
+pub uninterp spec fn split_spec(s: Seq<char>, colon: bool) -> (Seq<char>, Seq<char>, Seq<char>);
+pub uninterp spec fn curl_open(s: Seq<char>) -> Seq<char>;
+pub uninterp spec fn curl_close(s: Seq<char>) -> Seq<char>;
+pub uninterp spec fn emoticon_of(d: Data, s: Seq<char>) -> Option<Seq<char>>;
+pub uninterp spec fn emoji_named(d: Data, s: Seq<char>) -> Option<Seq<Seq<char>>>;
+pub uninterp spec fn iter_items<I>(i: I) -> Seq<Seq<char>>;
+pub uninterp spec fn sort_spec(s: Seq<Rank>) -> Seq<Rank>;
+pub assume_specification<T> [<[T]>::sort] (v: &mut [T])
+    where T: std::cmp::Ord,
+    ensures final(v)@.len() == old(v)@.len();
+pub open spec fn named_rv(es: Seq<Seq<char>>, p: Seq<char>, t: Seq<char>) -> Seq<RV> { Seq::new(es.len(), |k: int| ((1int, k + 1), p + es[k] + t)) }
+pub open spec fn assembled(swd: Seq<RV>, term: Seq<char>, pre: Seq<char>, trail: Seq<char>, ansi: bool, english: bool, emo: Option<Seq<char>>, named: Option<Seq<Seq<char>>>) -> Seq<RV> {
+    let a = if ansi { swd } else {
+        match emo {
+            Some(e) => (if term != pre { swd.push(((3int, 1int), term)) } else { swd }).push(((1int, 1int), e)),
+            None => match named { Some(es) => swd + named_rv(es, pre, trail), None => swd },
+        }
+    };
+    let typed_added = !ansi && emo.is_some();
+    if english && !ansi && !typed_added && term != pre { a.push(((3int, 3int), term)) } else { a }
+}
+impl Data {
+    #[verifier::external_body]
+    pub fn get_emoji_by_emoticon(&self, emoticon: &str) -> (r: Option<&str>)
+        ensures r.is_some() == emoticon_of(*self, emoticon@).is_some(), r.is_some() ==> r.unwrap()@ == emoticon_of(*self, emoticon@).unwrap()
+    { unimplemented!() }
+    #[verifier::external_body]
+    pub fn get_emoji_by_name(&self, name: &str) -> (r: Option<impl Iterator<Item = &str>>)
+        ensures r.is_some() == emoji_named(*self, name@).is_some(), r.is_some() ==> iter_items(r.unwrap()) == emoji_named(*self, name@).unwrap()
+    { None::<std::vec::IntoIter<&str>> }
+}
+impl SplittedString<'_> {
+    #[verifier::external_body]
+    pub fn split(input: &str, include_colon: bool) -> (r: SplittedString)
+        ensures (r.preceding@, r.word@, r.trailing@) == split_spec(input@, include_colon), input.is_ascii() ==> r.word.is_ascii()
+    { unimplemented!() }
+}
+#[verifier::external_body]
+pub fn smart_quoter(mut splitted: SplittedString) -> (r: SplittedString)
+    ensures r.word == splitted.word,
+        splitted.word@.len() == 0 ==> r.preceding@ == splitted.preceding@ && r.trailing@ == splitted.trailing@,
+        splitted.word@.len() > 0 ==> r.preceding@ == curl_open(splitted.preceding@) && r.trailing@ == curl_close(splitted.trailing@)
+{ unimplemented!() }
+#[verifier::external_body]
+fn hole_emoji_names<'a, I: Iterator<Item = &'a str>>(v: &mut Vec<Rank>, e: I, s: &SplittedString)
+    ensures rvs(final(v)@) == rvs(old(v)@) + named_rv(iter_items(e), s.preceding@, s.trailing@)
+{ unimplemented!() }
+
+impl SplittedString<'_> {
+pub fn map(&mut self, func: impl Fn(&str, &str) -> (String, String))
+        requires forall|p: &str, t: &str| func.requires((p, t)),
+        ensures
+            final(self).word == old(self).word,
+            exists|p: &str, t: &str, r: (String, String)| p@ == old(self).preceding@ && t@ == old(self).trailing@ && #[trigger] func.ensures((p, t), r)
+                && final(self).preceding@ == r.0@ && final(self).trailing@ == r.1@,
+    {
+        broadcast use axiom_cow_str_deref;
+        let (p, t) = (func)(self.preceding.deref(), self.trailing.deref());
+        self.preceding = Cow::Owned(p);
+        self.trailing = Cow::Owned(t);
+    }
+}
+impl Rank {
+pub fn emoji(item: String) -> (r: Self) ensures rv(r) == ((1int, 1int), item@) {
+        Rank::Emoji(item, 1)
+    }
+}
+use std::cmp::Ordering;
+use vstd::std_specs::cmp::{OrdSpecImpl, PartialOrdSpecImpl};
+pub open spec fn rank_cmp(a: Rank, b: Rank) -> Ordering {
+    match (a, b) {
+        (Rank::Emoji(_, _), Rank::Emoji(_, _)) => Ordering::Equal,
+        _ => { let ca = if tag(a).0 == 2 { 1int } else if tag(a).0 == 3 { 2int } else { tag(a).0 }; let cb = if tag(b).0 == 2 { 1int } else if tag(b).0 == 3 { 2int } else { tag(b).0 };
+             if ca < cb { Ordering::Less } else if ca > cb { Ordering::Greater }
+             else if tag(a).1 < tag(b).1 { Ordering::Less } else if tag(a).1 > tag(b).1 { Ordering::Greater } else { Ordering::Equal } }
+    }
+}
+impl OrdSpecImpl for Rank {
+    open spec fn obeys_cmp_spec() -> bool { true }
+    open spec fn cmp_spec(&self, other: &Self) -> Ordering { rank_cmp(*self, *other) }
+}
+impl PartialOrdSpecImpl for Rank {
+    open spec fn obeys_partial_cmp_spec() -> bool { true }
+    open spec fn partial_cmp_spec(&self, other: &Self) -> Option<Ordering> { Some(rank_cmp(*self, *other)) }
+}
+impl Ord for Rank {
+    fn cmp(&self, other: &Self) -> Ordering {
+        match (self, other) {
+            (Rank::First(_), Rank::First(_)) => Ordering::Equal,
+            (Rank::First(_), Rank::Emoji(_, _)) => Ordering::Less,
+            (Rank::Emoji(_, _), Rank::First(_)) => Ordering::Greater,
+            (Rank::First(_), Rank::Other(_, _)) => Ordering::Less,
+            (Rank::Other(_, _), Rank::First(_)) => Ordering::Greater,
+            (Rank::First(_), Rank::Last(_, _)) => Ordering::Less,
+            (Rank::Last(_, _), Rank::First(_)) => Ordering::Greater,
+
+            (Rank::Emoji(_, _), Rank::Emoji(_, _)) => Ordering::Equal,
+            (Rank::Emoji(_, e), Rank::Other(_, s)) => e.cmp(s),
+            (Rank::Other(_, s), Rank::Emoji(_, e)) => s.cmp(e),
+            (Rank::Emoji(_, _), Rank::Last(_, _)) => Ordering::Less,
+            (Rank::Last(_, _), Rank::Emoji(_, _)) => Ordering::Greater,
+
+            (Rank::Other(_, s1), Rank::Other(_, s2)) => s1.cmp(s2),
+            (Rank::Other(_, _), Rank::Last(_, _)) => Ordering::Less,
+            (Rank::Last(_, _), Rank::Other(_, _)) => Ordering::Greater,
+
+            (Rank::Last(_, s1), Rank::Last(_, s2)) => s1.cmp(s2),
+        }
+    }
+}
+impl PartialOrd for Rank {
+    fn partial_cmp(&self, other: &Self) -> Option<Ordering> {
+        Some(self.cmp(other))
+    }
+}
+impl Eq for Rank {}
 pub struct PhoneticSuggestion {
     pub suggestions: Vec<Rank>,
     pub pbuffer: String,
@@ -328,6 +454,7 @@ pub fn suggestion_with_dict(&mut self, string: &SplittedString, data: &Data)
             direct_nonempty(sview(old(self).user_autocorrect@), *data),
         ensures
             final(self).user_autocorrect == old(self).user_autocorrect,
+            final(self).suggestions@.len() >= 1,
             cache_ok(sview(final(self).cache@), sview(final(self).user_autocorrect@), *data),
             sview(final(self).cache@).contains_key(string.word@),
             forall|k: Seq<char>| sview(old(self).cache@).contains_key(k) ==> #[trigger] sview(final(self).cache@).contains_key(k) && sview(final(self).cache@)[k] == sview(old(self).cache@)[k],
@@ -427,6 +554,7 @@ pub fn suggestion_with_dict(&mut self, string: &SplittedString, data: &Data)
                 }
             }
             assert(rvs(core) =~= pc(rvs(before2), ((3int, 2int), avro(string.word@))));
+            assert(core.len() >= 1);
         }
 
         // Add those preceding and trailing meta characters.
@@ -458,6 +586,74 @@ pub fn suggestion_with_dict(&mut self, string: &SplittedString, data: &Data)
                 }
             }
         }
+    }
+
+    #[verifier::external_body]
+    pub fn get_prev_selection(&self, string: &SplittedString, data: &Data, selections: &mut HashMap<String, String, RandomState>) -> (r: usize)
+        ensures r == 0 || r < self.suggestions@.len()
+    { unimplemented!() }
+pub fn suggest(
+        &mut self,
+        term: &str,
+        data: &Data,
+        selections: &mut HashMap<String, String, RandomState>,
+        config: &Config,
+    ) -> (res: (Vec<Rank>, usize))
+        requires
+            term.is_ascii(), data_wf(*data),
+            cache_ok(sview(old(self).cache@), sview(old(self).user_autocorrect@), *data),
+            direct_nonempty(sview(old(self).user_autocorrect@), *data),
+        ensures
+            res.0@.len() >= 1, res.1 < res.0@.len(),
+            cache_ok(sview(final(self).cache@), sview(final(self).user_autocorrect@), *data),
+    {
+        let mut string = SplittedString::split(term, false);
+        let mut typed_added = false;
+
+        // Convert preceding and trailing meta characters into Bengali(phonetic representation).
+        string.map(|p: &str, t: &str| -> (r: (String, String)) ensures r.0@ == avro(p@), r.1@ == avro(t@) { (self.phonetic.convert(p), self.phonetic.convert(t)) });
+
+        // Smart Quoting feature
+        if config.get_smart_quote() {
+            string = smart_quoter(string);
+        }
+
+        self.suggestion_with_dict(&string, data);
+
+        // Emoji addition with corresponding emoticon (if ANSI mode is not enabled).
+        if !config.get_ansi_encoding() {
+            if let Some(emoji) = data.get_emoji_by_emoticon(term) {
+                // Add the emoticon
+                // Sometimes the emoticon is captured as preceding meta characters and already included.
+                if term != string.preceding() {
+                    self.suggestions.push(Rank::last_ranked(term.to_owned(), 1));
+                }
+                self.suggestions.push(Rank::emoji(emoji.to_owned()));
+                // Mark that we have added the typed text already (as the emoticon).
+                typed_added = true;
+            } else if let Some(emojis) = data.get_emoji_by_name(string.word()) {
+                // Emoji addition with it's name
+                // Add preceding and trailing meta characters.
+                let ghost bh = self.suggestions@;
+                hole_emoji_names(&mut self.suggestions, emojis, &string);
+                proof { assert(rvs(self.suggestions@).len() == self.suggestions@.len()); assert(rvs(bh).len() == bh.len()); }
+            }
+        }
+
+        // Include written English word if the feature is enabled and it is not included already.
+        // Avoid including meta character suggestion twice, so check `term` is not equal to the
+        // captured preceding characters
+        if config.get_suggestion_include_english() && !typed_added && term != string.preceding() {
+            self.suggestions
+                .push(Rank::last_ranked(term.to_string(), 3));
+        }
+
+        // Sort the suggestions.
+        self.suggestions.sort();
+
+        let selection = self.get_prev_selection(&string, data, selections);
+
+        (self.suggestions.clone(), selection)
     }
 }
 fn main() {}
